@@ -324,10 +324,17 @@ def dag(rng, n_cells=None, two_sheets=None, arrays=None, data_sheet=None, forms=
     positions = set()
     if data_sheet:
         sd = g.sheets.index(SD)
-        # A1:B2 always populated so that every clipped unbounded range is a real range
-        positions.update({(sd, 1, 1), (sd, 1, 2), (sd, 2, 1), (sd, 2, 2)})
-        for _ in range(rng.randint(0, 3)):
-            positions.add((sd, rng.randint(1, 3), rng.randint(1, 2)))
+        shape = rng.random()
+        if shape < 0.15:
+            # used area one row high: A:A and B:B clip to a single cell
+            positions.update({(sd, 1, 1), (sd, 1, 2)})
+        elif shape < 0.3:
+            # used area one column wide: 1:1 and 2:2 clip to a single cell
+            positions.update({(sd, 1, 1), (sd, 2, 1)})
+        else:
+            positions.update({(sd, 1, 1), (sd, 1, 2), (sd, 2, 1), (sd, 2, 2)})
+            for _ in range(rng.randint(0, 3)):
+                positions.add((sd, rng.randint(1, 3), rng.randint(1, 2)))
     main = [i for i, s in enumerate(g.sheets) if s != SD]
     tries = 0
     while len([p for p in positions if p[0] in main]) < n_cells and tries < 500:
